@@ -69,6 +69,8 @@ func init() {
 			{ID: "C02.9", Desc: "the age of a freshened response counts from the 304 (stored Age dropped before, the 304's Age merged): a stale must-revalidate response is not served as fresh", Run: func(c *Ctx) { ruleMergeFilter(c, "C02.9") }, MinSites: 1},
 			{ID: "C02.10", Desc: "directive names are case-folded on every path (Max-Age=0, No-Cache=\"x\")", Run: func(c *Ctx) { ruleC12_1(c); renameRule(c, "C12.1", "C02.10") }, MinSites: 1},
 			{ID: "C02.11", Desc: "a quoted-pair stands for the escaped octet (max-age=\"\\0\", no-cache=\"Set\\-Cookie\")", Run: func(c *Ctx) { ruleQuotedPair(c, "C02.11") }, MinSites: 1},
+			{ID: "C02.12", Desc: "fields named by a qualified no-cache are removed from the trailers as well (a field sent as a trailer is replayed as one)", Run: func(c *Ctx) { ruleNoCacheFieldsLeaveTrailers(c, "C02.12") }, MinSites: 1},
+			{ID: "C02.13", Desc: "parsed directive maps are private to the exchange: never written after parsing, never handed out from a memo table (a request max-age=0 edited away stays away)", Run: func(c *Ctx) { ruleDirectiveMapsPrivate(c, "C02.13") }, MinSites: 2},
 		},
 	})
 }
